@@ -138,6 +138,28 @@ impl<'a, N: Normalizer> Html5Serializer<'a, N> {
         Ok(())
     }
 
+    // The declarations of an element that are in force for its content. A
+    // default declaration for XHTML, MathML or SVG on an element of another
+    // namespace is not written (see the Prefix output), so elements below
+    // that are in that namespace have to declare it themselves.
+    fn tracked_declarations(
+        &self,
+        node: Node,
+        element_namespace: crate::id::NamespaceId,
+    ) -> Vec<(crate::id::PrefixId, crate::id::NamespaceId)> {
+        self.xot
+            .namespace_declarations(node)
+            .into_iter()
+            .filter(|(prefix, namespace)| {
+                !(*prefix == self.xot.empty_prefix()
+                    && *namespace != element_namespace
+                    && self
+                        .html5_elements
+                        .must_be_serialized_unprefixed(*namespace))
+            })
+            .collect()
+    }
+
     pub(crate) fn render_output(
         &mut self,
         node: Node,
@@ -146,10 +168,10 @@ impl<'a, N: Normalizer> Html5Serializer<'a, N> {
         use Output::*;
         let r = match output {
             StartTagOpen(element) => {
-                let declarations = self.xot.namespace_declarations(node);
+                let namespace_id = self.xot.namespace_for_name(element.name_id);
+                let declarations = self.tracked_declarations(node, namespace_id);
                 let has_declarations = !declarations.is_empty();
                 self.fullname_serializer.push(declarations);
-                let namespace_id = self.xot.namespace_for_name(element.name_id);
                 if self
                     .html5_elements
                     .must_be_serialized_unprefixed(namespace_id)
@@ -208,8 +230,9 @@ impl<'a, N: Normalizer> Html5Serializer<'a, N> {
                 if forced {
                     self.forced_frames.pop();
                 }
-                self.fullname_serializer
-                    .pop(self.xot.has_namespace_declarations(node) || forced);
+                let namespace_id = self.xot.namespace_for_name(element.name_id);
+                let has_declarations = !self.tracked_declarations(node, namespace_id).is_empty();
+                self.fullname_serializer.pop(has_declarations || forced);
                 r
             }
             Prefix(prefix_id, namespace_id) => {
